@@ -79,6 +79,20 @@ def check(case, ctx):
     out = call(lambda: _reused["w"].magnetic_field(lat, lon, h, date=d_arg))
     if ctx.returned(out, route="magnetic_field/reused-object"):
         judge("magnetic_field/reused-object", _reused["w"])
+        # follow-up queries with date=None (keeps the date of the previous query; an omitted date would mean today): the values must be
+        # those of that date at the new place, however many such queries follow each other
+        for k in (1, 2, 3):
+            lat2 = float(np.clip(lat + 7.3 * k * (-1) ** k, -88.9, 88.9))
+            lon2 = float(((lon + 41.0 * k + 180.0) % 360.0) - 180.0)
+            o2 = call(lambda: _reused["w"].magnetic_field(lat2, lon2, h, date=None))
+            if not ctx.returned(o2, clause="no-exception[date=None]", route="magnetic_field/reused-object"):
+                _reused.pop("w", None)
+                break
+            w = _reused["w"]
+            got = np.array([w.X, w.Y, w.Z], dtype=float)
+            ref2, _ = refwmm.field(lat2, lon2, h, date, cof_root())
+            ctx.le("query with date=None: X, Y, Z are those of the previous query's date at the new place (nT)", float(np.abs(got - ref2).max()), TOL_NT,
+                   {"lat": lat2, "lon": lon2, "h_km": h, "date": date, "consecutive_dateless_queries": k, "got": got, "ref": ref2}, route="magnetic_field/reused-object")
     else:
         _reused.pop("w", None)
 
